@@ -23,7 +23,7 @@ RULE = (
     "next message / run exactly one loop iteration / complete one awaitable without running the loop), enumerated up to a depth "
     "bound, so that races between a completion's wake-up and the next routed message are reached; "
     "process_message returns. One message of a burst may be long (3.3 kB) or huge (150 kB: beyond any plausible internal slice size). "
-    "'long-stall': one connection never completes its first write while 3000 (quick) / 20000 (thorough) messages are routed; the others "
+    "'busy-pipe' (TTY on a non-blocking pipe: one write call refused with BlockingIOError, nothing written: what reaches the channel is whole and in routing order, with or without the refused message); 'long-stall': one connection never completes its first write while 3000 (quick) / 20000 (thorough) messages are routed; the others "
     "must receive all of them. Each explored schedule is one evaluation; non-trivial: some connection had >= 2 unfinished sends at a "
     "choice point. Schedules of one configuration are distinct by construction."
 )
@@ -317,7 +317,35 @@ def check_long_stall(case):
     return Info(nontrivial=bool(nt), labels=[f"n={case['n']}", "+".join(case["conns"])])
 
 
-SUBCHECKS = {"long-stall": check_long_stall, "explore": check_config, "schedule": check_schedule, "bursts": check_schedule, "interleave": check_interleave}
+def check_busy_pipe(case):
+    """The TTY channel on a non-blocking pipe that is momentarily full: one write call is refused with BlockingIOError and
+    nothing written (for the caller: that write is late, or lost). Whatever the handler does about it, the messages that do
+    reach the channel are whole and in the order they were routed. case: {"n": int, "fail": i, "gaps": [...]}"""
+    import errno
+
+    rig = Rig(["tty"], None)
+    try:
+        c = rig.conns[0]
+        c["stdout"].held = False
+        c["stdout"].fail_writes[case["fail"] % case["n"]] = BlockingIOError(errno.EAGAIN, "write could not complete without blocking", 0)
+        msgs = fixed_messages(case["n"])
+        rig.route(msgs, case.get("gaps", [False]))
+        for _ in range(40):  # (a handler may wait before it tries again)
+            rig.loop.advance_to(rig.loop.time() + 0.25)
+            rig.loop.drain()
+        out = rig.output(c).decode("latin1")
+        texts = [m.to_string().decode("latin1") for m in msgs]
+        f = case["fail"] % case["n"]
+        ok = ("".join(texts), "".join(t for i, t in enumerate(texts) if i != f))
+        if out not in ok:
+            pos = [(out.find(t), i) for i, t in enumerate(texts)]
+            raise Failure("busy-pipe:order-or-wholeness-lost-after-a-refused-write", f"{case}: write {f} of {case['n']} was refused once; offsets at which the routed messages 0..{case['n'] - 1} appear on the channel (-1 = not whole): {pos}")
+        return Info(nontrivial=case["n"] >= 2 and f < case["n"] - 1, labels=[f"n={case['n']}"])
+    finally:
+        rig.close()
+
+
+SUBCHECKS = {"busy-pipe": check_busy_pipe, "long-stall": check_long_stall, "explore": check_config, "schedule": check_schedule, "bursts": check_schedule, "interleave": check_interleave}
 
 
 def configs(tier):
@@ -373,4 +401,5 @@ def run(ctx):
     ctx.hyp("bursts", burst_case, check_schedule, ctx.scale(200, 5000))
     n_long = ctx.scale(3000, 20000)
     longs = [{"conns": c, "n": n_long, "stalled": s_, "gaps": g} for c, s_ in ((["tcp", "tcp", "tcp"], 0), (["tcp", "tcp", "tty"], 1), (["tty", "tcp"], 0)) for g in ([False], [True, False])]
+    ctx.each("busy-pipe", [{"n": n_, "fail": f_, "gaps": g_} for n_ in (1, 2, 3, 5) for f_ in range(n_) for g_ in ([False], [True])], check_busy_pipe, stop_after=2, timeout=60)
     ctx.each("long-stall", longs, check_long_stall, stop_after=2, timeout=ctx.scale(300, 1200))
